@@ -129,6 +129,29 @@ func roTruncations(mode int, ss []seed) mc.Harness {
 	}
 }
 
+// seeds as they are (no cut, no fault): used for generated families of unusual inputs
+func roSeedsPlain(mode int, ss []seed) mc.Harness {
+	pairs := seedEntryPairs(ss)
+	const chunk = 8
+	return func(x *mc.Exec) {
+		ch := x.All("pair-chunk", (len(pairs)+chunk-1)/chunk)
+		sigs := map[string]bool{}
+		n := 0
+		for i := ch * chunk; i < (ch+1)*chunk && i < len(pairs); i++ {
+			s, e := ss[pairs[i].s], &entryPoints[pairs[i].e]
+			pristine()
+			res := runEntry(e, envio.New(s.doc.B), mode == oracleAlloc)
+			n++
+			if kind, desc := roJudge(mode, e, res, len(s.doc.B)); kind != "" {
+				roFail(x, sigs, mode, e, kind, desc, "seed "+s.name, s.doc.B, res)
+			}
+		}
+		x.Bulk = int64(n) - 1
+		x.InputID = hashBytes([]byte(fmt.Sprint("plain", ch, len(pairs))))
+		x.Outcome = fmt.Sprint(ch % 7)
+	}
+}
+
 // S2: every I/O call as a fault point
 func roIOFaults(mode int, ss []seed) mc.Harness {
 	pairs := seedEntryPairs(ss)
@@ -346,6 +369,8 @@ func roSpaces(mode int, tier string) []mc.Space {
 		{Name: "header-tails", H: roHeaderTails(mode, tail), NoLevels: true, Isolate: true,
 			Rule: fmt.Sprintf("every canonical 24-byte header followed by every string of length <= %d over the alphabet, every entry point, then EOF or an error", tail)},
 	}
+	sp = append(sp, mc.Space{Name: "degenerate-single-field-records", H: roSeedsPlain(mode, degenerateRecords()), NoLevels: true, Isolate: true,
+		Rule: "for every supported Exif field alone in a record, in both byte orders: value shapes its parser does not expect (count 0; strings/dates of 0, 1 and 3 characters with and without NUL; a rational as two SHORTs / one LONG / no value; BYTE x4) x every accepting entry point"})
 	sp = append(sp, mc.Space{Name: "large-payload-malformations", H: roMalformations(mode, bigSeeds(), mb), Bound: mb, Isolate: true,
 		Rule: "generated files whose payloads exceed the internal buffers (CR3 with a 70 KB preview and a 9 KB XMP packet, in 32- and 64-bit box forms; TIFF with 5000- and 1500-byte strings; JPEG with 60 KB XMP and 65 KB APPn segments): every structural field x its malformation menu, up to the bound simultaneously; every accepting entry point"})
 	return sp
